@@ -63,9 +63,13 @@ func (r *Report) Sample(s interface{}) {
 	}
 }
 
+// realStdout is where the harness reports; os.Stdout itself is redirected to /dev/null in main
+// because parts of the engine (UCI log, perft) print to it unconditionally.
+var realStdout = os.Stdout
+
 func (r *Report) Emit() int {
 	b, _ := json.Marshal(r)
-	fmt.Println("REPORT " + string(b))
+	fmt.Fprintln(realStdout, "REPORT "+string(b))
 	if len(r.Violations) > 0 {
 		return 1
 	}
